@@ -1,7 +1,7 @@
 #!/bin/sh
 # usage: run_seeds.sh [ids...]  — apply each seeded patch to /repo, run the matching check (quick), undo; print a result table
 cd /verif
-IDS="${@:-$(ls seeded)}"
+IDS="${@:-$(ls -d seeded/*/ | xargs -n1 basename)}"
 for d in $IDS; do
   prop=$(python3 -c "import json;print(json.load(open('/verif/seeded/$d/meta.json')).get('property','$d')[:3])")
   if ! git -C /repo apply --check /verif/seeded/$d/patch.diff 2>/dev/null; then echo "$d $prop PATCH-CONFLICT"; continue; fi
